@@ -151,7 +151,18 @@ def count_obligations(files):
 
 def prepare_coq():
     """translators + project file + Makefile.  Returns (ok, message)."""
-    rc, out, _ = sh([sys.executable, os.path.join(HERE, "tools", "translate.py")], cwd=HERE, timeout=120)
+    # the tables are regenerated from what the code COMPUTES (tm-harness tables: every table-like function
+    # evaluated on its whole finite domain) and cross-checked with a reading of the source text; if the harness
+    # does not build, the source text alone is used
+    dump = os.path.join(BUILD, "gen", "tables_dump.txt")
+    os.makedirs(os.path.dirname(dump), exist_ok=True)
+    okh, hb = build_harness()
+    args = []
+    if okh:
+        rc, out, _ = sh("%s tables > %s.tmp && mv %s.tmp %s" % (hb, dump, dump, dump), timeout=120)
+        if rc == 0:
+            args = ["--dump", dump]
+    rc, out, _ = sh([sys.executable, os.path.join(HERE, "tools", "translate.py")] + args, cwd=HERE, timeout=120)
     if rc != 0:
         return False, "translator failed: " + out.strip()[-400:]
     sh([sys.executable, os.path.join(HERE, "tools", "gen_coqproject.py")], cwd=HERE)
